@@ -38,6 +38,10 @@ def spell(items):
             out.append({'g1': 'glob1', 'l1': '.loc1'}.get(a, 'glob2'))
         elif t == 'DIR':
             out.append(a)
+        elif t in ('SYM', 'OP', 'WORD'):
+            out.append(a)
+        elif t == 'DSYM':
+            out.append(f'DSYM{b}')
         elif t == 'BL':
             out.append(BL[a])
         elif t == 'COMMA':
@@ -51,7 +55,7 @@ def spell(items):
 
 def evaluate(e):
     text = spell(e['items'])
-    case = {'config': carrier_yaml(), 'files': {'main.asm': text}}
+    case = {'config': carrier_yaml(symbols=[('MODE', 'fast')]), 'files': {'main.asm': text}}
     obs = runner.run_case(case)
     want = bytes(e['bytes'])
     if obs['status'] != 'ok':
@@ -164,8 +168,8 @@ def run(chk):
                 'statements and pairs (sampled in the quick tier), a 10-style covering subset for three statements. '
                 'Non-trivial = distinct rendered text. The repository programs are also rewritten (comments stripped, blanks changed to tabs / widened / appended, blank and comment lines added, mnemonics upper-cased; lines with quote characters untouched) and must assemble to the same image under their own ISAs.')
     chk.assumptions = ['only the rewrites the statement lists are applied: case of mnemonics and registers (not labels, not directives), blanks between tokens, blank lines, comments, label placement, joining of instructions (not directives)']
-    plan = ([('all-styles-1', 'StmtsA', 'StylesAll', 1), ('half-styles-2', 'StmtsA', 'StylesHalf', 2), ('core-styles-3', 'StmtsB', 'StylesCore', 3)] if quick
-            else [('all-styles-2', 'StmtsA', 'StylesAll', 2), ('core-styles-3', 'StmtsA', 'StylesCore', 3), ('core-styles-4', 'StmtsB', 'StylesCore', 4)])
+    plan = ([('pre-sep-2', 'StmtsP', 'StylesSep', 2), ('all-styles-1', 'StmtsA', 'StylesAll', 1), ('half-styles-2', 'StmtsA', 'StylesHalf', 2), ('core-styles-3', 'StmtsB', 'StylesCore', 3)] if quick
+            else [('pre-sep-3', 'StmtsP', 'StylesSep', 3), ('all-styles-2', 'StmtsA', 'StylesAll', 2), ('core-styles-3', 'StmtsA', 'StylesCore', 3), ('core-styles-4', 'StmtsB', 'StylesCore', 4)])
     for tag, stmts, styles, ml in plan:
         res = tlc.run_tlc('MC_Lexer', f'SPECIFICATION Spec\nCONSTANTS\n  Stmts <- {stmts}\n  Styles <- {styles}\n  MaxLen = {ml}\n'
                           + ''.join(f'INVARIANT {i}\n' for i in INV), workers=16, timeout=3000)
